@@ -206,6 +206,8 @@ def res_class(r):
         return ("none",)
     if r[0] == "ok":
         v = r[1]
+        if isinstance(v, tuple) and v and v[0] == "seq":
+            return ("seq", res_class(v[1]), res_class(v[2]))
         if isinstance(v, tuple):
             return ("ok", v[1])
         return ("ok", None)
@@ -265,7 +267,20 @@ class SchedRun:
                     ops.append({"op": "put", "name": names[i], "uid": uid, "cond": r.choice([None, "current", "current"]), "body": gen.ics(r, uid, rich=0, summary="w%d" % j).decode("latin-1")})
                 else:
                     ops.append({"op": "delete", "name": r.choice(names), "cond": r.choice([None, "current"])})
-        return {"backend": backend, "mode": mode, "pre": pre, "ops": ops, "schedules": None}
+        plan = {"backend": backend, "mode": mode, "pre": pre, "ops": ops, "schedules": None}
+        # a process may open its store only when its request arrives (first request of a
+        # worker, restart overlapping the old process, store cache eviction)
+        plan["lazy_open"] = mode == "procs" and r.random() < 0.5
+        # a node may issue a second request after its first one (same handle, later in time)
+        if r.random() < 0.35:
+            j = r.randrange(len(ops))
+            k = r.random()
+            if k < 0.6:
+                uid = r.choice(["uid-shared", "uid-0", "uid-then"])
+                ops[j]["then"] = {"op": "put", "name": "then%d.ics" % j, "uid": uid, "cond": None, "body": gen.ics(r, uid, rich=0, summary="then").decode("latin-1")}
+            else:
+                ops[j]["then"] = {"op": "delete", "name": r.choice(names), "cond": None}
+        return plan
 
     def run(self):
         arena = Arena(self.tag)
@@ -285,37 +300,90 @@ class SchedRun:
         close_store(st)
         return state
 
-    def op_fn(self, st, op, pre_state):
+    def single_fn(self, op, pre_state):
         etag = None
         if op.get("cond") == "current":
             e = pre_state["members"].get(op["name"])
             etag = e[0] if e else "0" * 40
         if op["op"] == "put":
             body = op["body"].encode("latin-1")
-            return lambda: st.import_one(op["name"], "text/calendar", [body], replace_etag=etag)
-        return lambda: st.delete_one(op["name"], etag=etag)
+            return lambda st: st.import_one(op["name"], "text/calendar", [body], replace_etag=etag)
+        return lambda st: st.delete_one(op["name"], etag=etag)
+
+    def op_fn(self, st, op, pre_state, opener=None):
+        """st: an opened store, or None with `opener` for lazy opening inside the node."""
+        first = self.single_fn(op, pre_state)
+        then = self.single_fn(op["then"], pre_state) if op.get("then") else None
+
+        def run():
+            s = st if st is not None else opener()
+            self._lazy.append(s) if st is None else None
+            if then is None:
+                return first(s)
+            try:
+                r1 = ("ok", first(s))
+            except Exception as e:  # noqa: BLE001 - outcome of the first request
+                r1 = ("exc", e)
+            try:
+                r2 = ("ok", then(s))
+            except Exception as e:  # noqa: BLE001
+                r2 = ("exc", e)
+            return ("seq", r1, r2)
+
+        return run
+
+    # A node issues one request or two in a row ("then"); a *step* is (node, k).
+    @staticmethod
+    def steps_of(plan):
+        out = []
+        for i, op in enumerate(plan["ops"]):
+            out.append((i, 0, op))
+            if op.get("then"):
+                out.append((i, 1, op["then"]))
+        return out
+
+    @staticmethod
+    def step_results(plan, got):
+        """Flatten per-node results into {(node, k): result class}."""
+        out = {}
+        for i, op in enumerate(plan["ops"]):
+            g = got[i]
+            if op.get("then"):
+                if g[0] == "seq":
+                    out[(i, 0)], out[(i, 1)] = g[1], g[2]
+                else:
+                    out[(i, 0)] = out[(i, 1)] = g
+            else:
+                out[(i, 0)] = g
+        return out
 
     def sequential(self, plan, pre_dir, pre_state, order, seq_dir):
+        """Run the given steps one after another (order: tuple of (node, k))."""
         rmtree_real(seq_dir)
         shutil.copytree(pre_dir, seq_dir, symlinks=True)
-        stores = self.open_stores(plan, seq_dir)
+        stores = {}
         res = {}
-        for i in order:
-            st = stores[i]
+        for (i, k) in order:
+            if plan["mode"] == "threads":
+                st = stores.setdefault("shared", None) or stores.__setitem__("shared", open_store(plan["backend"], seq_dir)) or stores["shared"]
+            else:
+                st = stores.get(i)
+                if st is None:
+                    st = stores[i] = open_store(plan["backend"], seq_dir)
+            op = plan["ops"][i] if k == 0 else plan["ops"][i]["then"]
             try:
-                res[i] = ("ok", self.op_fn(st, plan["ops"][i], pre_state)())
-            except Exception as e:
-                res[i] = ("exc", e)
-        for s in set(map(id, stores)):
-            pass
-        for st in {id(s): s for s in stores}.values():
-            close_store(st)
+                res[(i, k)] = ("ok", self.single_fn(op, pre_state)(st))
+            except Exception as e:  # noqa: BLE001
+                res[(i, k)] = ("exc", e)
+        for st in stores.values():
+            if st is not None:
+                close_store(st)
         st = open_store(plan["backend"], seq_dir)
         try:
             final = read_state(st, plan["backend"])
         finally:
             close_store(st)
-        return {i: res_class(res[i]) for i in order}, {n: d for n, (e, d) in final["members"].items()}
+        return {sk: res_class(r) for sk, r in res.items()}, {n: d for n, (e, d) in final["members"].items()}
 
     def open_stores(self, plan, path):
         n = len(plan["ops"])
@@ -337,10 +405,14 @@ class SchedRun:
         seq_cache = {}
 
         def outcomes_for(subset):
+            """All sequential executions of the given steps that keep each node's own order."""
             key = tuple(sorted(subset))
             if key not in seq_cache:
                 outs = []
                 for order in itertools.permutations(key):
+                    pos = {sk: j for j, sk in enumerate(order)}
+                    if any((i, 0) in pos and (i, 1) in pos and pos[(i, 0)] > pos[(i, 1)] for (i, _) in key):
+                        continue
                     outs.append((order,) + self.sequential(plan, pre_dir, pre_state, order, seq_dir))
                 seq_cache[key] = outs
             return seq_cache[key]
@@ -441,7 +513,9 @@ class SchedRun:
         rmtree_real(work)
         shutil.copytree(pre_dir, work, symlinks=True)
         FS.reset()
-        stores = self.open_stores(plan, work)
+        self._lazy = []
+        lazy = bool(plan.get("lazy_open")) and plan["mode"] == "procs"
+        stores = [None] * n if lazy else self.open_stores(plan, work)
         if explicit:
             sch = Scheduler(n, None, None, schedule=sc)
             first = sc.get("first", 0)
@@ -452,15 +526,16 @@ class SchedRun:
         FS.hook = lambda kind, paths, mut: sch.yield_point(kind)
         FS.active = True
         tracer = make_tracer(sch) if plan["mode"] == "threads" else None
-        fns = [self.op_fn(stores[i], plan["ops"][i], pre_state) for i in range(n)]
+        fns = [self.op_fn(stores[i], plan["ops"][i], pre_state, opener=lambda: open_store(plan["backend"], work)) for i in range(n)]
         try:
             results = sch.run(fns, first, tracer)
         finally:
             FS.active = False
             FS.hook = None
-        for st in {id(s): s for s in stores}.values():
+        for st in {id(s): s for s in list(stores) + list(self._lazy) if s is not None}.values():
             close_store(st)
         del stores
+        self._lazy = []
         gc.collect()
         self.schedules += 1
         self.total_steps = getattr(self, "total_steps", 0) + sch.step
@@ -484,7 +559,8 @@ class SchedRun:
 
         def viol(cls, detail):
             self.violations.append({"prop": "C05", "oracle": "C05." + cls, "sig": dict(label, oracle="C05." + cls), "step": None,
-                                    "detail": ("%s | ops=%s results=%s switches=%s" % (detail, [(o["op"], o["name"], o.get("cond")) for o in plan["ops"]], got, sch.signature[:6]))[:900]})
+                                    "detail": ("%s | ops=%s lazy_open=%s results=%s switches=%s" % (detail, [(o["op"], o["name"], o.get("cond"), ("then", o["then"]["op"], o["then"]["name"]) if o.get("then") else None) for o in plan["ops"]],
+                                                                                             bool(plan.get("lazy_open")), got, sch.signature[:6]))[:900]})
             return recorded
 
         # final state
@@ -497,42 +573,40 @@ class SchedRun:
         except Exception as e:
             return viol("final-state-unreadable", "%s: %r" % (type(e).__name__, e))
         final = {nm: d for nm, (e, d) in final_state["members"].items()}
-        locked = [i for i in range(n) if got[i] == ("exc", "LockedError")]
+        steps = self.steps_of(plan)
+        sres = self.step_results(plan, got)
+        opof = {(i, k): op for (i, k, op) in steps}
+        locked = [sk for sk in sres if sres[sk] == ("exc", "LockedError")]
         if locked:
             self.count("locked_refusals", len(locked))
-        weird = [i for i in range(n) if got[i][0] == "exc" and got[i][1] not in ("LockedError", "InvalidETag", "DuplicateUidError", "NoSuchItem")]
+        weird = [sk for sk in sres if sres[sk][0] == "exc" and sres[sk][1] not in ("LockedError", "InvalidETag", "DuplicateUidError", "NoSuchItem")]
         if weird:
             self.count("unexpected_exceptions", len(weird))
-            if os.environ.get("XSIM_TRACE_EXC"):
-                import traceback
-
-                for i in weird:
-                    traceback.print_exception(type(results[i][1]), results[i][1], results[i][1].__traceback__, limit=-10)
-        live = [i for i in range(n) if i not in locked and i not in weird]
+        live = [sk for sk in sorted(sres) if sk not in locked and sk not in weird]
         match = None
         for order, res, fin in outcomes_for(live):
-            if all(res[i] == got[i] for i in live) and fin == final:
+            if all(res[sk] == sres[sk] for sk in live) and fin == final:
                 match = order
                 break
         if len(self.samples) < 2 and sch.switches_inside:
-            self.samples.append({"backend": plan["backend"], "mode": plan["mode"], "ops": [(o["op"], o["name"], o.get("cond"), o.get("uid")) for o in plan["ops"]],
+            self.samples.append({"backend": plan["backend"], "mode": plan["mode"], "lazy_open": bool(plan.get("lazy_open")),
+                                 "ops": [(o["op"], o["name"], o.get("cond"), o.get("uid"), ("then", o["then"]["op"], o["then"]["name"]) if o.get("then") else None) for o in plan["ops"]],
                                  "strategy": sc if not explicit else "explicit", "context_switches": [list(x) for x in sch.signature[:8]], "results": {str(k): list(v) for k, v in got.items()},
-                                 "equals_sequential_order": list(match) if match else None})
+                                 "equals_sequential_order": [list(x) for x in match] if match else None})
         if weird:
-            i = weird[0]
-            exc = results[i][1]
+            (i, k) = weird[0]
+            name = sres[(i, k)][1]
             # an operation that is neither acknowledged nor refused as locked
-            self.violations.append({"prop": "C05", "oracle": "C05.unexpected-exception", "sig": dict(label, oracle="C05.unexpected-exception", exc=type(exc).__name__), "step": None,
-                                    "detail": ("op %d %s raised %s: %s | results=%s switches=%s" % (i, (plan["ops"][i]["op"], plan["ops"][i]["name"]), type(exc).__name__, str(exc)[:200], got, sch.signature[:6]))[:900]})
+            self.violations.append({"prop": "C05", "oracle": "C05.unexpected-exception", "sig": dict(label, oracle="C05.unexpected-exception", exc=name), "step": None,
+                                    "detail": ("node %d step %d %s raised %s | results=%s switches=%s" % (i, k, (opof[(i, k)]["op"], opof[(i, k)]["name"]), name, got, sch.signature[:6]))[:900]})
             return recorded
         if match is not None:
             return None
         # classify
         from .crash import git_blob_id
 
-        ops = plan["ops"]
-        oks = [i for i in live if got[i][0] == "ok"]
-        named = {o["name"] for o in ops}
+        oks = [sk for sk in live if sres[sk][0] == "ok"]
+        named = {op["name"] for (_, _, op) in steps}
         for nm, (e, d) in pre_state["members"].items():
             if nm not in named and final.get(nm) != d:
                 return viol("untouched-member-changed", "member %s, which no operation names, changed or disappeared" % nm)
@@ -545,34 +619,43 @@ class SchedRun:
         pre_etags = {nm: e for nm, (e, d) in pre_state["members"].items()}
         explained = False
         for order in itertools.permutations(oks):
+            pos = {sk: j for j, sk in enumerate(order)}
+            if any((i, 0) in pos and (i, 1) in pos and pos[(i, 0)] > pos[(i, 1)] for (i, _) in oks):
+                continue
             cur = dict(pre_etags)
-            for i in order:
-                if ops[i]["op"] == "put":
-                    cur[ops[i]["name"]] = got[i][1]
+            for sk in order:
+                if opof[sk]["op"] == "put":
+                    cur[opof[sk]["name"]] = sres[sk][1]
                 else:
-                    cur.pop(ops[i]["name"], None)
+                    cur.pop(opof[sk]["name"], None)
             if cur == final_etags:
                 explained = True
                 break
         if explained:
-            conds = [i for i in oks if ops[i].get("cond") == "current" and ops[i]["op"] == "put"]
+            conds = [sk for sk in oks if opof[sk].get("cond") == "current" and opof[sk]["op"] == "put"]
             for a, b in itertools.combinations(conds, 2):
-                if ops[a]["name"] == ops[b]["name"]:
-                    return viol("both-conditional-succeed", "two conditional updates of %s against the same etag both succeeded" % ops[a]["name"])
+                if opof[a]["name"] == opof[b]["name"]:
+                    return viol("both-conditional-succeed", "two conditional updates of %s against the same etag both succeeded" % opof[a]["name"])
             uids = {}
+            overlapping_dup = False
             for nm, d in sorted(final.items()):
                 u = icalparse.first_uid(d)
                 if u is not None and u in uids:
+                    # Which acknowledged writes produced the two holders?  If one of them is a node's
+                    # *second* request issued after the other holder's write had completed, the two
+                    # writes did not overlap at all.
                     return viol("duplicate-uid", "%s and %s share UID %s" % (uids[u], nm, u))
                 uids[u] = nm
             return viol("stale-check", "every acknowledged write is present, but some etag/UID/existence check was decided on a state another operation had already changed")
-        for i in oks:
-            if ops[i]["op"] == "put" and not any(j != i and ops[j]["name"] == ops[i]["name"] for j in oks):
-                if final_etags.get(ops[i]["name"]) != got[i][1]:
-                    return viol("lost-acknowledged-write", "acknowledged write of %s is missing or reverted although no other acknowledged operation wrote it" % ops[i]["name"])
-            if ops[i]["op"] == "delete" and not any(j != i and ops[j]["name"] == ops[i]["name"] for j in oks):
-                if ops[i]["name"] in final:
-                    return viol("lost-acknowledged-write", "acknowledged delete of %s was undone" % ops[i]["name"])
+        for sk in oks:
+            op = opof[sk]
+            others = [x for x in oks if x != sk and opof[x]["name"] == op["name"]]
+            if op["op"] == "put" and not others:
+                if final_etags.get(op["name"]) != sres[sk][1]:
+                    return viol("lost-acknowledged-write", "acknowledged write of %s is missing or reverted although no other acknowledged operation wrote it" % op["name"])
+            if op["op"] == "delete" and not others:
+                if op["name"] in final:
+                    return viol("lost-acknowledged-write", "acknowledged delete of %s was undone" % op["name"])
         return viol("not-serializable", "no sequential order of %s gives these results and final contents %s" % (live, sorted(final)))
 
     def git_view(self, plan, work, got, sch, recorded):
